@@ -232,13 +232,9 @@ func (x *Exec) doAppend(st *State, call *ast.CallExpr) Value {
 	h := x.heap(st, key, es)
 	if call.Ellipsis.IsValid() {
 		src := x.eval(st, call.Args[1]).(SliceV)
-		k := src.Len
-		return x.appendGeneral(st, call, base, key, es, h, k, func(na Term, off2 Term) {
-			t := Term{"ap!t", SInt}
-			srcArr := Select(x.heap(st, key, es), src.Ref)
-			st.assume(Forall([]Term{t}, Implies(And(Cmp("<=", Int(0), t), Cmp("<", t, k)),
-				Eq(Select(na, Add(off2, Add(base.Len, t))), Select(srcArr, Add(src.Off, t)))),
-				[]Term{Select(na, Add(off2, Add(base.Len, t)))}), "append-new")
+		srcArr := Select(x.heap(st, key, es), src.Ref)
+		return x.appendGeneral(st, call, base, key, es, h, src.Len, func(t Term) Term {
+			return Select(srcArr, Add(src.Off, t))
 		})
 	}
 	var elems []Term
@@ -258,33 +254,38 @@ func (x *Exec) doAppend(st *State, call *ast.CallExpr) Value {
 		st.heaps[key] = Store(h, base.Ref, arr)
 		return SliceV{Ref: base.Ref, Off: base.Off, Len: newLen, Cap: base.Cap, Elem: base.Elem}
 	}
-	return x.appendGeneral(st, call, base, key, es, h, k, func(na Term, off2 Term) {
-		for i, e := range elems {
-			st.assume(Eq(Select(na, Add(off2, Add(base.Len, Int(int64(i))))), e), "append-new")
+	return x.appendGeneral(st, call, base, key, es, h, k, func(t Term) Term {
+		r := elems[len(elems)-1]
+		for i := len(elems) - 2; i >= 0; i-- {
+			r = Ite(Eq(t, Int(int64(i))), elems[i], r)
 		}
+		return r
 	})
 }
 
-func (x *Exec) appendGeneral(st *State, call *ast.CallExpr, base SliceV, key, es string, h Term, k Term, newElems func(na, off2 Term)) Value {
+// appendGeneral: result array described pointwise over the absolute index j (single trigger select(na, j)).
+func (x *Exec) appendGeneral(st *State, call *ast.CallExpr, base SliceV, key, es string, h Term, k Term, elemAt func(t Term) Term) Value {
 	newLen := Add(base.Len, k)
 	fits := Cmp("<=", newLen, base.Cap)
 	fresh := st.alloc
 	st.alloc = Add(st.alloc, Int(1))
-	ref2 := Ite(fits, base.Ref, fresh)
-	off2 := Ite(fits, base.Off, Int(0))
+	ref2 := x.fresh("append_ref", SInt)
+	off2 := x.fresh("append_off", SInt)
+	st.assume(And(Eq(ref2, Ite(fits, base.Ref, fresh)), Eq(off2, Ite(fits, base.Off, Int(0)))), "append-target")
 	cap2 := x.fresh("append_cap", SInt)
 	st.assume(And(Implies(fits, Eq(cap2, base.Cap)), Cmp(">=", cap2, newLen)), "append-cap")
 	x.check(st, "frame", "frame/mod", Or(Not(fits), x.frameOK(st, base.Ref, key)), call.Pos(), "append in place writes fresh or modifiable memory")
 	old := Select(h, base.Ref)
 	na := x.fresh("append_arr", ArrSort(es))
 	j := Term{"ap!j", SInt}
-	// existing elements preserved (relative to the new offset)
-	st.assume(Forall([]Term{j}, Implies(And(Cmp("<=", Int(0), j), Cmp("<", j, base.Len)),
-		Eq(Select(na, Add(off2, j)), Select(old, Add(base.Off, j)))), []Term{Select(na, Add(off2, j))}), "append-keep")
-	// in place: everything outside the appended window is unchanged
-	st.assume(Implies(fits, Forall([]Term{j}, Implies(Or(Cmp("<", j, Add(base.Off, base.Len)), Cmp(">=", j, Add(base.Off, newLen))),
-		Eq(Select(na, j), Select(old, j))), []Term{Select(na, j)})), "append-inplace-frame")
-	newElems(na, off2)
+	rel := Sub(j, off2)
+	inOld := And(Cmp("<=", Int(0), rel), Cmp("<", rel, base.Len))
+	inNew := And(Cmp("<=", base.Len, rel), Cmp("<", rel, newLen))
+	body := And(
+		Implies(inOld, Eq(Select(na, j), Select(old, Add(base.Off, rel)))),
+		Implies(inNew, Eq(Select(na, j), elemAt(Sub(rel, base.Len)))),
+		Implies(And(fits, Not(inOld), Not(inNew)), Eq(Select(na, j), Select(old, j))))
+	st.assume(Forall([]Term{j}, body, []Term{Select(na, j)}), "append-contents")
 	st.heaps[key] = Store(h, ref2, na)
 	return SliceV{Ref: ref2, Off: off2, Len: newLen, Cap: cap2, Elem: base.Elem}
 }
@@ -476,7 +477,7 @@ func (x *Exec) applyContract(st *State, call *ast.CallExpr, key string, c *FuncC
 		rv := x.freshResult(st, rt, fmt.Sprintf("%s_r%d", short, i), allocBefore)
 		results = append(results, rv)
 	}
-	envPost := &SpecEnv{x: x, st: st, preSt: preSt, bind: bind, bindPre: bind, lets: c.Lets, results: results, calleePkg: c.Pkg, bound: map[string]Value{}, resultNames: resultNames(sig)}
+	envPost := &SpecEnv{x: x, st: st, preSt: preSt, bind: bind, bindPre: bind, lets: c.Lets, results: results, calleePkg: c.Pkg, bound: map[string]Value{}, resultNames: resultNames(sig), allocBase: &allocBefore}
 	for _, e := range c.Ensures {
 		st.assume(asTerm(x.evalSpec(envPost, e.E)), "ensures:"+short)
 	}
